@@ -20,6 +20,7 @@ import (
 	"path/filepath"
 	"regexp"
 	"sort"
+	"strconv"
 	"strings"
 
 	"cuelang.org/go/cue"
@@ -185,6 +186,38 @@ func instText(insts []*J) string {
 		parts[i] = j.Text()
 	}
 	return "[" + strings.Join(parts, ",") + "]"
+}
+
+// runPermuted: the same schema with the keys of every schema object in a random
+// order (tag O).  The importer processes the keywords of one phase in document
+// order; the verdicts must not depend on it, so they are compared with `valid`.
+func (r *runner) runPermuted(s *S, text string, insts []*J) {
+	ctx := r.context()
+	v, fail := r.importSchema(ctx, text)
+	line := caseLine("O", s, insts)
+	info := fmt.Sprintf(`{"schema":%s,"text":%s,"instances":%s}`, s.JSONText(), strconv.Quote(text), instText(insts))
+	r.stats["permuted-key-order-cases"]++
+	switch {
+	case strings.HasPrefix(fail, "panic:"):
+		r.emit(line, "P "+strings.TrimPrefix(fail, "panic:"), info)
+	case fail != "" && fail != "compile":
+		r.emit(line, "X", info)
+	case fail == "compile":
+		r.emit(line, "C "+verdicts(ctx, v, insts), info)
+	default:
+		r.emit(line, "S "+verdicts(ctx, v, insts), info)
+	}
+}
+
+func permOf(rng *common.Rng) func(n int) []int {
+	return func(n int) []int {
+		p := make([]int, n)
+		for i := range p {
+			p[i] = i
+		}
+		common.Shuffle(rng, p)
+		return p
+	}
 }
 
 // runCase: forward direction, then the reverse direction on the same instances.
@@ -360,8 +393,9 @@ func main() {
 				continue
 			}
 			var rc struct {
-				Schema    stdjson.RawMessage `json:"schema"`
+				Schema    stdjson.RawMessage   `json:"schema"`
 				Instances []stdjson.RawMessage `json:"instances"`
+				Text      string               `json:"text"`
 			}
 			if err := stdjson.Unmarshal([]byte(line), &rc); err != nil {
 				panic(err)
@@ -383,6 +417,9 @@ func main() {
 				insts = append(insts, j)
 			}
 			r.runCase(s, insts, true)
+			if rc.Text != "" {
+				r.runPermuted(s, rc.Text, insts)
+			}
 		}
 		return
 	}
@@ -419,6 +456,9 @@ func main() {
 			r.stats["inst-kind-"+string(j.K)]++
 		}
 		r.runCase(s, insts, true)
+		if !s.IsBool {
+			r.runPermuted(s, s.JSONTextShuffled(permOf(g.r)), insts)
+		}
 	}
 }
 
